@@ -18,9 +18,9 @@ QUICK_S = 30
 THOROUGH_S = 420
 BATCH = 6
 RULE = ('one evaluation = one seeded sequence of 15-150 backend calls (add, get, set, touch, delete, incr, decr, has_key, in, '
-        'get_many, set_many, delete_many, get_or_set with values and callables, incr_version, decr_version, pop, clear) over keys x '
+        'get_many, set_many, delete_many, get_or_set with values and callables, incr_version, decr_version, pop, clear, close; version by keyword or positionally) over keys (str, and 1 / 1.0 / True / "1", which Django tells apart by their text) x '
         'versions {default,1,2,3} x timeouts {DEFAULT, None, 0, -1, 1, 2.5, 100} with clock steps {0 .. 301 s} (exact ties reachable), '
-        'for backend TIMEOUT in {300, None, 5, 0, 2.5} x KEY_PREFIX x VERSION x SHARDS; every result and exception class is compared '
+        'for backend TIMEOUT in {300, None, 5, 0, 2.5} x KEY_PREFIX x VERSION x SHARDS x KEY_FUNCTION (default, or one that prefixes a tenant switched between calls); every result and exception class is compared '
         'with ModelDjango; non-trivial = at least 10 calls; distinct = SHA-256 of (parameters, program)')
 ASSUMPTIONS = ['outcomes the contract leaves open are accepted either way: return value of set/clear/set_many success, delete() of an expired key',
                'live <=> expire_time > now (zero or negative timeout means already expired)']
